@@ -268,7 +268,7 @@ def _one(job: Tuple[str, str]) -> Dict[str, Any]:
 def run(tier: str = "quick", seed: int = 0, known: Any = None) -> Dict[str, Any]:
     from bounded import gen
     t0 = time.time()
-    n = 1200 if tier == "quick" else 12000
+    n = 1200 if tier == "quick" else 24000
     # spread over the shapes: an evenly strided sample of every shape's part of the exhaustive prefix
     cap = max(8, n // max(1, len(gen.SHAPES)))
     buckets: Dict[str, List[Dict[str, Any]]] = {}
